@@ -139,8 +139,12 @@ def _padding_table(ctx):
 # ------------------------------------------------------------------ C19.2
 def c19_2(ctx):
     ints = _not_bytes("data", "item", "self.filter_bytes", "self.MASK")
-    tail = sym.value_leaf(lambda e: norm(e) == "len(data) % 4", df.const_int, truthy_is_nonzero=False)
-    sym.against_reference(ctx, ctx.func(BLOOM, "murmur3"), _ref(), "murmur3", "murmur3", lambda t: not t.startswith("data") or t.startswith("data["), leaf=tail)
+    tail = sym.value_leaf(lambda e: norm(e) == "len(data) % 4", df.const_int, truthy_is_nonzero=True)
+    sym.SET_UNIVERSE = gi.iv(0, 3)           # the subject is a remainder modulo 4
+    try:
+        sym.against_reference(ctx, ctx.func(BLOOM, "murmur3"), _ref(), "murmur3", "murmur3", lambda t: not t.startswith("data") or t.startswith("data["), leaf=tail)
+    finally:
+        sym.SET_UNIVERSE = None
     sym.against_reference(ctx, ctx.func(BLOOM, "BloomFilter.__init__"), _ref(), "bloom_init", "bloom-size", ints)
     sym.against_reference(ctx, ctx.func(BLOOM, "BloomFilter.add_item"), _ref(), "bloom_add_item", "bip37-seeds", ints)
     sym.against_reference(ctx, ctx.func(BLOOM, "BloomFilter._index_for_bit"), _ref(), "bloom_index_for_bit", "bloom-bit-address", ints)
